@@ -78,6 +78,55 @@ def Pool.avail (p : Pool) : Nat := p.free.length
 /-- `pool_in_freelist` = `slist_in` -/
 def Pool.inFreelist (p : Pool) (c : Nat) : Bool := p.free.contains c
 
+/-! ### the same routines at the level of `next` pointers
+
+`Links` is the memory of the `next` fields: address ↦ address.  Cells are
+addressed by their offset in the zone, the list head (`&pool->free_blocks`)
+by some address `head` that is not a cell.  `Props.lean` shows that these
+routines implement the list operations above (`slist_*_refines`). -/
+
+abbrev Links := Nat → Nat
+
+def upd (m : Links) (a v : Nat) : Links := fun x => if x = a then v else m x
+
+/-- `slist_init`: `head->next = head` -/
+def slistInit (m : Links) (head : Nat) : Links := upd m head head
+
+/-- `slist_empty`: `head->next == head` -/
+def slistEmpty (m : Links) (head : Nat) : Bool := m head == head
+
+/-- `slist_add(link, head)`: `link->next = head->next; head->next = link;` -/
+def slistAdd (m : Links) (link head : Nat) : Links := upd (upd m link (m head)) head link
+
+/-- `slist_pop_first`: `ret = head->next; if (ret == head) return NULL; head->next = ret->next; return ret;` -/
+def slistPopFirst (m : Links) (head : Nat) : Option Nat × Links :=
+  let ret := m head
+  if ret = head then (none, m) else (some ret, upd m head (m ret))
+
+/-- `slist_size`: `slist_for_each(it, head) i++` (fuel bounds the walk) -/
+def slistSizeLoop (m : Links) (head : Nat) : Nat → Nat → Nat → Nat
+  | 0, _, i => i
+  | fuel + 1, pos, i => if pos = head then i else slistSizeLoop m head fuel (m pos) (i + 1)
+
+def slistSize (m : Links) (head fuel : Nat) : Nat := slistSizeLoop m head fuel (m head) 0
+
+/-- `slist_in`: `slist_for_each(it, head) if (it == finded) return true; return false` -/
+def slistInLoop (m : Links) (head finded : Nat) : Nat → Nat → Bool
+  | 0, _ => false
+  | fuel + 1, pos => if pos = head then false else if pos = finded then true else slistInLoop m head finded fuel (m pos)
+
+def slistIn (m : Links) (head finded fuel : Nat) : Bool := slistInLoop m head finded fuel (m head)
+
+/-- `pool_engage` on pointers -/
+def engageLoopP (elemsz stop head : Nat) : Nat → Nat → Links → Links
+  | 0, _, m => m
+  | fuel + 1, it, m =>
+    if it < stop then engageLoopP elemsz stop head fuel (it + elemsz) (slistAdd m it head) else m
+
+/-- `pool_alloc` on pointers -/
+def poolAllocP (m : Links) (head : Nat) : Option Nat × Links :=
+  if slistEmpty m head then (none, m) else slistPopFirst m head
+
 /-! ## igris/container/pool.h — `igris::pool` -/
 
 structure IPool where
